@@ -51,6 +51,13 @@ impl TypeSpace {
 
         let non_null = non_nulls.into_iter().next()?;
 
+        // As with `"type": [T, "null"]`, a required name belongs to the
+        // wrapper generated for the Option; the inner type needs its own.
+        let type_name = match type_name {
+            Name::Required(name) => Name::Suggested(format!("{}Inner", name)),
+            other => other,
+        };
+
         let (type_entry, _) = self.convert_option(type_name, metadata, non_null).ok()?;
 
         Some(type_entry)
